@@ -73,6 +73,9 @@ func vpH_C14_maporder() {
 func vpH_C15_frozen() {
 	g := vpNewGen(0)
 	docs := vpC09Docs(g)
+	if vpThorough() && vpChoice("docset", 2) == 1 {
+		docs = []*vpDoc{g.doc(8, 0), g.doc(6, 1), g.doc(4, 2), g.doc(7, 3)}
+	}
 	seg := vpBuild(docs, []uint32{1025, 2}[vpChoice("mode", 2)])
 	switch vpChoice("kind", 3) {
 	case 1:
